@@ -394,8 +394,8 @@ theorem abs_relabel_any {t : Table} {n : Nat} (hr : t.Rect n) (r : Relabel) :
 theorem abs_setFn {t : Table} {n : Nat} (hr : t.Rect n) (kf : String × Fn) :
     (t.setFn kf).map abs = (abs t).setFn kf := by
   unfold setFn Recs.setFn
-  rw [abs_applyFn t]
-  cases (abs t).applyFn kf.2 with
+  rw [abs_applyFnK t]
+  cases (abs t).applyFnK kf.1 kf.2 with
   | error e => rfl
   | ok vs => exact abs_setitem hr kf.1 (.many vs)
 
